@@ -158,6 +158,8 @@ def run(
             d, t = int(m.group(3)), int(m.group(4))
             od, ot = r.coverage.get(name, (0, 0))
             r.coverage[name] = (od + d, ot + t)
+    if r.violation is None and re.search(r"Error: Postcondition \S+ .*is false", r.stdout):
+        r.violation = "Postcondition"
     r.printed = [l for l in r.stdout.splitlines() if l.startswith("<<") or l.startswith('"')]
     finished = "Model checking completed. No error has been found." in r.stdout or (
         simulate is not None and r.generated > 0 and "Error:" not in r.stdout
